@@ -302,7 +302,7 @@ fn c05_schedule_reports_deadlock() {
 // C16: Execution::step resets every piece of per-iteration state;  S.newthread;  C19: Execution::new
 // ================================================================================================
 
-//@ props=C16,C14 tier=quick timeout=1500 fns=src/rt/execution.rs::Execution::step,src/rt/thread.rs::Set::clear,src/rt/object.rs::Store::clear,src/rt/lazy_static.rs::Set::reset,src/rt/execution.rs::Id::new bounded=threads:N=3,path:depth=2,objects:2,raw_allocations:empty,arc_objs:empty models=VersionVec::join=s_vv_models_agree
+//@ props=C16,C14 tier=quick timeout=1500 fns=src/rt/execution.rs::Execution::step,src/rt/thread.rs::Set::clear,src/rt/object.rs::Store::clear,src/rt/lazy_static.rs::Set::reset,src/rt/execution.rs::Id::new bounded=threads:N=3,path:depth=1,objects:1,raw_allocations:empty,arc_objs:empty models=VersionVec::join=s_vv_models_agree
 #[kani::proof]
 #[kani::unwind(8)]
 #[kani::stub(std::hash::RandomState::new, crate::rt::thread::verif_kani::fixed_random_state)]
@@ -311,12 +311,11 @@ fn c16_execution_step_resets_everything() {
     // a 2-entry path; lazy statics already dropped (as `Builder::check` does before stepping)
     let mut set = tv::any_set(SN);
     tv::any_pending_ops(&mut set, |k| if k == 0 { None } else { Some(crate::rt::object::verif_kani::op_opaque(0)) });
-    let path = pv::any_path(2, 4);
+    let path = pv::any_path(1, 4);
     let pv0 = pv::path_view(&path);
     kani::assume(pv::wf_path(&pv0));
     let mut ex = exec_with_path(ManuallyDrop::into_inner(set), ManuallyDrop::into_inner(path), 4);
     ex.objects.insert(crate::rt::mutex::verif_kani::mutex_state_with_access(0));
-    ex.objects.insert(crate::rt::mutex::verif_kani::mutex_state_with_access(1));
     let _ = ex.lazy_statics.drop();
     ex.location = kani::any();
     ex.log = kani::any();
@@ -325,7 +324,7 @@ fn c16_execution_step_resets_everything() {
     let has_next = {
         let mut r = false;
         let mut i = 0;
-        while i < 2 {
+        while i < 1 {
             if pv::is_exploring(&pv0.entries[i]) && pv::has_alternative(&pv0.entries[i]) {
                 r = true;
             }
